@@ -244,9 +244,34 @@ def _read_site(rel, cls):
     return tmpl, repl[0][0]
 
 
-def generate():
-    tree = _parse(LOGGING)
-    # ---- formatter
+NOTES = []      # what could not be read from the AST this run (props/c20.py copies it into the evidence)
+
+
+def _note(msg):
+    if msg not in NOTES:
+        NOTES.append(msg)
+
+
+def _baseline(name):
+    """the definition of `name` in the Gen file on disk (the hand-written / last generated model): used only for a fact that
+    can be neither read nor measured — the per-run correspondence is then the tie for it"""
+    from vlib.common import VERIF
+    txt = (VERIF / "lean" / "ScrapliModel" / "Gen" / "LogConsts.lean").read_text()
+    m = re.search(rf"^def {name} : [^\n]*?:= (.*(?:\n  .*)*)$", txt, re.M)
+    if not m:
+        raise TranslateError(f"no baseline value for {name}")
+    return m.group(1)
+
+
+def _live():
+    from vlib.common import use_repo
+    use_repo()
+    import scrapli.logging as L
+    return L
+
+
+def _formatter_ast(tree):
+    """formats, first id, header constants as the source spells them"""
     fcls = _cls(tree, "ScrapliFormatter", LOGGING)
     init = _func(fcls, "__init__", LOGGING)
     fmts = []
@@ -259,7 +284,6 @@ def generate():
     style = [k.value for n in ast.walk(init) if isinstance(n, ast.Call) for k in n.keywords if k.arg == "style"]
     if len(style) != 1 or _const_eval(style[0], LOGGING) != "{":
         raise TranslateError(f"{LOGGING}: formatter style is not '{{'")
-    plain, caller = parse_format(fmts[0], LOGGING), parse_format(fmts[1], LOGGING)
     start_id = _self_attr_assigns(init, [])
     if "message_id" not in start_id:
         raise TranslateError(f"{LOGGING}: self.message_id initial value not found")
@@ -281,24 +305,46 @@ def generate():
         hdr["target"] = call.func.value.value
     except (AssertionError, TypeError, AttributeError, IndexError):
         raise TranslateError(f"{LOGGING}: header target is not `<const>.ljust(len(record.target))`")
-    need = ["message_id", "asctime", "levelname", "target", "module", "funcName", "lineno", "message"]
-    for k in need:
-        if not isinstance(hdr.get(k), str):
-            raise TranslateError(f"{LOGGING}: header field {k} is not a str constant: {hdr.get(k)!r}")
-    try:
-        tr = _truncations(fm, LOGGING)
-    except TranslateError:
-        tr = {}
-    if not all(k in tr for k in ("target", "module", "funcName")):
-        tr = _truncations_probe()     # not spelled out in formatMessage (helper function, ...): measure it
-    if tr["module"] != tr["funcName"]:
-        raise TranslateError(f"{LOGGING}: module and funcName are truncated differently: {tr['module']} vs {tr['funcName']}")
-    for k, (a, limit, keep, suf) in tr.items():
-        if a < limit:
-            raise TranslateError(f"{LOGGING}: record.{k}[:{a}] cuts strings no longer than {limit}")
-    if tr["target"][3] != tr["module"][3]:
-        raise TranslateError(f"{LOGGING}: different truncation suffixes")
-    # ---- handler
+    return {"plain": fmts[0], "caller": fmts[1], "first_id": first_id, "hdr": {k: hdr.get(k) for k in HDR_KEYS}}
+
+
+HDR_KEYS = ["message_id", "asctime", "levelname", "target", "module", "funcName", "lineno", "message"]
+
+
+def _formatter_live():
+    """the same facts MEASURED on live ScrapliFormatter objects: the format string each instance hands to logging
+    (caller_info off / on), the style class, the first message id, and the header record as it stands after the first
+    message was formatted (empty target: the header target is its constant; a 25 character target: it is padded to 25)"""
+    import logging as _logging
+    L = _live()
+    out = {}
+    for key, ci in (("plain", False), ("caller", True)):
+        f = L.ScrapliFormatter(log_header=True, caller_info=ci)
+        if not isinstance(f._style, _logging.StrFormatStyle):
+            raise TranslateError(f"{LOGGING}: live formatter style is {type(f._style).__name__}, not '{{'")
+        out[key] = f._fmt
+        if not isinstance(out[key], str):
+            raise TranslateError(f"{LOGGING}: live formatter has no format string")
+    f = L.ScrapliFormatter(log_header=True, caller_info=True)
+    out["first_id"] = f.message_id
+
+    def probe(host=None):
+        r = _logging.LogRecord("scrapli.translate", 20, "probe.py", 1, "m", None, None, func="f")
+        r.message, r.asctime = "m", "t"
+        if host is not None:
+            r.host, r.port = host, "1"
+        return r
+    f.formatMessage(probe())
+    hdr = {k: getattr(f.header_record, k, None) for k in HDR_KEYS}
+    g = L.ScrapliFormatter(log_header=True, caller_info=False)
+    g.formatMessage(probe("h" * 23))
+    if not (isinstance(hdr["target"], str) and g.header_record.target == hdr["target"].ljust(25) and f.message_id == out["first_id"] + 1):
+        raise TranslateError(f"{LOGGING}: live header target is not <const>.ljust(len(record.target)) / message_id does not advance by one")
+    out["hdr"] = hdr
+    return out
+
+
+def _handler_ast(tree):
     hcls = _cls(tree, "ScrapliFileHandler", LOGGING)
     hinit = _self_attr_assigns(_func(hcls, "__init__", LOGGING), [])
     if "_read_msg_prefix" not in hinit:
@@ -316,7 +362,45 @@ def generate():
             heads.append(v.values[0].value)
     if len(heads) != 1:
         raise TranslateError(f"{LOGGING}: emit_buffered: expected one assignment to <record>.msg")
-    # ---- enable_basic_logging
+    return {"prefix": prefix, "head": heads[0]}
+
+
+def _handler_live():
+    """MEASURED on a live ScrapliFileHandler writing a temp file through a bare '%(message)s' formatter: the coalesced head
+    = what precedes repr(payload) in the line two probe read records give; the prefix = the longest prefix p of the
+    handler's own `_read_msg_prefix` candidate such that records starting with p are coalesced and a record that differs
+    in p's last character is not"""
+    import logging as _logging, os as _os, tempfile as _tf
+    L = _live()
+    d = _tf.mkdtemp(prefix="verif-c20-gen-")
+
+    def life(msgs):
+        path = _os.path.join(d, "p.log")
+        h = L.ScrapliFileHandler(path, mode="w", encoding="utf-8")
+        h.setFormatter(_logging.Formatter("%(message)s"))
+        for m in msgs:
+            h.handle(_logging.LogRecord("scrapli.translate", 10, "probe.py", 1, m, None, None))
+        h.close()
+        with open(path, encoding="utf-8") as fh:
+            return fh.read().split("\n")[:-1]
+    try:
+        cand = getattr(L.ScrapliFileHandler(_os.path.join(d, "q.log"), mode="w", encoding="utf-8", delay=True), "_read_msg_prefix", None)
+        if not isinstance(cand, str) or not cand:
+            raise TranslateError(f"{LOGGING}: live handler has no read prefix to probe")
+        lines = life([cand + "AB", cand + "CD"])
+        if len(lines) != 1 or not lines[0].endswith(repr(b"ABCD")):
+            raise TranslateError(f"{LOGGING}: live handler does not coalesce two records starting with {cand!r}: {lines!r}")
+        head = lines[0][: -len(repr(b"ABCD"))]
+        other = cand[:-1] + ("#" if cand[-1] != "#" else "!")
+        if len(life([other + "AB", other + "CD"])) != 2 or len(life([cand[:-1], cand[:-1]])) != 2:
+            raise TranslateError(f"{LOGGING}: live handler coalesces records that do not start with {cand!r}")
+        return {"prefix": cand, "head": head}
+    finally:
+        import shutil as _sh
+        _sh.rmtree(d, ignore_errors=True)
+
+
+def _modes_ast(tree):
     ebl = _func(tree, "enable_basic_logging", LOGGING)
     modes, fmode, dflt = None, None, None
     for n in ast.walk(ebl):
@@ -335,8 +419,157 @@ def generate():
     if not (isinstance(modes, tuple) and len(modes) == 2 and fmode and fmode[0] in modes and isinstance(dflt, str)):
         raise TranslateError(f"{LOGGING}: enable_basic_logging mode table / default file not recognised: {modes!r} {fmode!r} {dflt!r}")
     other = [m for m in modes if m != fmode[0]][0]
-    mode_tbl = [(fmode[0], fmode[1]), (other, fmode[2])]
+    return {"modes": [(fmode[0], fmode[1]), (other, fmode[2])], "default": dflt}
+
+
+def _modes_live():
+    """MEASURED by calling enable_basic_logging on temp files: which of a list of candidate mode words it accepts (exactly
+    as written and in other ASCII case: the model lowers ASCII case) and the file mode of the handler it installs; the
+    default file name = the handler's file for file=True in an empty working directory.  Logger state is restored."""
+    import logging as _logging, os as _os, tempfile as _tf, shutil as _sh
+    L = _live()
+    from scrapli.exceptions import ScrapliException
+    lg = _logging.getLogger("scrapli")
+    saved = (lg.level, lg.propagate, list(lg.handlers))
+    d = _tf.mkdtemp(prefix="verif-c20-gen-")
+    cwd = _os.getcwd()
+
+    def call(**kw):
+        try:
+            L.enable_basic_logging(level="debug", **kw)
+        except ScrapliException:
+            return None
+        finally:
+            new = [h for h in lg.handlers if h not in saved[2]]
+            for h in new:
+                lg.removeHandler(h)
+                h.close()
+        return new[0] if len(new) == 1 else False
+    try:
+        _os.chdir(d)
+        tbl = []
+        for word in ("append", "write", "a", "w", "overwrite", "read", "", "truncate", "x"):
+            got = [call(file=_os.path.join(d, "m.log"), mode=w) for w in (word, word.upper(), word.capitalize())]
+            if any(g is False for g in got) or len({(g.mode if g else None) for g in got}) != 1:
+                raise TranslateError(f"{LOGGING}: enable_basic_logging treats {word!r} differently in different ASCII case / installs several handlers")
+            if got[0]:
+                tbl.append((word, got[0].mode))
+        h = call(file=True, mode="write")
+        if not h or not tbl:
+            raise TranslateError(f"{LOGGING}: enable_basic_logging(file=True) installed no handler")
+        return {"modes": sorted(tbl), "default": _os.path.basename(h.baseFilename)}
+    finally:
+        _os.chdir(cwd)
+        lg.setLevel(saved[0]); lg.propagate = saved[1]
+        _sh.rmtree(d, ignore_errors=True)
+
+
+def _fact(label, read, measure):
+    """AST where it has the familiar shape (cross-checked against the live objects), else measured; (value | None, how)"""
+    a = m = None
+    try:
+        a = read()
+    except TranslateError as e:
+        _note(f"translator: {label}: source shape not recognised ({str(e)[:160]})")
+    try:
+        m = measure()
+    except Exception as e:        # noqa: a probe that cannot run is not a verdict
+        _note(f"translator: {label}: could not be measured on the live objects ({e!r})"[:260])
+    if a is not None and m is not None and a != m:
+        _note(f"translator: {label}: the source text reads {a!r} but the live objects give {m!r}: the live value is used")
+        return m
+    if a is None and m is not None:
+        _note(f"translator: {label}: measured on the live objects")
+    return a if a is not None else m
+
+
+def generate():
+    del NOTES[:]
+    tree = _parse(LOGGING)
+    # ---- formatter
+    F = _fact("formatter formats / header", lambda: _formatter_ast(tree), _formatter_live)
+    plain = caller = None
+    if F is not None:
+        try:
+            plain, caller = parse_format(F["plain"], LOGGING), parse_format(F["caller"], LOGGING)
+            for k in HDR_KEYS:
+                if not isinstance(F["hdr"].get(k), str):
+                    raise TranslateError(f"{LOGGING}: header field {k} is not a str constant: {F['hdr'].get(k)!r}")
+        except TranslateError as e:
+            _note(f"translator: formatter formats / header: {str(e)[:200]}")
+            F = None
+    first_id, hdr = (F["first_id"], F["hdr"]) if F is not None else (None, None)
+    tr = None
+    try:
+        try:
+            tr = _truncations(_func(_cls(tree, "ScrapliFormatter", LOGGING), "formatMessage", LOGGING), LOGGING)
+        except TranslateError:
+            tr = {}
+        if not all(k in tr for k in ("target", "module", "funcName")):
+            tr = _truncations_probe()     # not spelled out in formatMessage (helper function, ...): measure it
+        if tr["module"] != tr["funcName"]:
+            raise TranslateError(f"{LOGGING}: module and funcName are truncated differently: {tr['module']} vs {tr['funcName']}")
+        for k, (a, limit, keep, suf) in tr.items():
+            if a < limit:
+                raise TranslateError(f"{LOGGING}: record.{k}[:{a}] cuts strings no longer than {limit}")
+        if tr["target"][3] != tr["module"][3]:
+            raise TranslateError(f"{LOGGING}: different truncation suffixes")
+    except TranslateError as e:
+        _note(f"translator: truncation limits: {str(e)[:200]}")
+        tr = None
+    # ---- handler
+    H = _fact("ScrapliFileHandler read prefix / coalesced head", lambda: _handler_ast(tree), _handler_live)
+    prefix, heads = (H["prefix"], [H["head"]]) if H is not None else (None, [None])
+    # ---- enable_basic_logging
+    M = _fact("enable_basic_logging mode table / default file", lambda: _modes_ast(tree), _modes_live)
+    mode_tbl, dflt = (M["modes"], M["default"]) if M is not None else (None, None)
     # ---- channel call sites
+    C = _fact("channel log templates / stripped byte / default channel log", _chan_ast, _chan_live)
+    rs, cr_s, w_tmpl, w_red, chan_dflt = (C["read"], C["cr"], C["write"], C["redacted"], C["default"]) if C is not None else (None,) * 5
+
+    unreadable = []
+
+    def put(name, typ, value, render, doc=None):
+        """one definition of the Gen file: the value read / measured this run, else the definition the Gen file already has"""
+        text = None
+        if value is not None:
+            try:
+                text = render(value)
+            except (TranslateError, TypeError, ValueError, KeyError) as e:
+                _note(f"translator: {name}: {str(e)[:160]}")
+        if text is None:
+            text = _baseline(name)          # (raises TranslateError only when there is no Gen file at all)
+            unreadable.append(name)
+        return (f"/-- {doc} -/\n" if doc else "") + f"def {name} : {typ} := {text}\n"
+
+    nat = lambda v: str(int(v))
+    body = HEADER.format(src=f"{LOGGING}, {BASE}, {SYNC}, {ASYNC}")
+    body += "import ScrapliModel.LogTypes\nnamespace Scrapli.Gen.Log\nopen Scrapli.Log\n"
+    body += put("fmtPlain", "List Piece", plain, lpieces, "ScrapliFormatter.__init__: log_format (caller_info=False), parsed by string.Formatter")
+    body += put("fmtCaller", "List Piece", caller, lpieces, "ScrapliFormatter.__init__: log_format (caller_info=True)")
+    body += put("firstMessageId", "Nat", first_id, nat)
+    body += put("targetLimit", "Nat", tr and tr["target"][1], nat) + put("targetKeep", "Nat", tr and tr["target"][2], nat)
+    body += put("callerLimit", "Nat", tr and tr["module"][1], nat) + put("callerKeep", "Nat", tr and tr["module"][2], nat)
+    body += put("ellipsis", "Str", tr and tr["target"][3], lstr)
+    for k, n in (("message_id", "hdrMessageId"), ("asctime", "hdrAsctime"), ("levelname", "hdrLevelname"), ("target", "hdrTarget"),
+                 ("module", "hdrModule"), ("funcName", "hdrFuncName"), ("lineno", "hdrLineno"), ("message", "hdrMessage")):
+        body += put(n, "Str", hdr and hdr[k], lstr)
+    body += put("readPrefix", "Str", prefix, lstr, "ScrapliFileHandler._read_msg_prefix")
+    body += put("bufferedHead", "Str", heads[0], lstr, "literal head of the coalesced message f\"...{self._record_msg_buf!r}\"")
+    body += put("logModes", "List (Str × Str)", mode_tbl, lambda t: "[" + ", ".join(f"({lstr(a)}, {lstr(b)})" for a, b in t) + "]",
+                "enable_basic_logging: (mode, file mode)")
+    body += put("defaultLogFile", "Str", dflt, lstr)
+    body += put("chanReadTemplate", "Str", rs, lstr, "Channel.read / AsyncChannel.read: self.logger.debug(<template>, buf)")
+    body += put("chanWriteTemplate", "Str", w_tmpl, lstr, "BaseChannel.write") + put("chanWriteRedacted", "Str", w_red, lstr)
+    body += put("strippedByte", "UInt8", cr_s, nat, "the byte `read()` removes from every chunk: buf.replace(b\"\\r\", b\"\")")
+    body += put("defaultChannelLog", "Str", chan_dflt, lstr)
+    body += "end Scrapli.Gen.Log\n"
+    if unreadable:
+        _note("translator: shape unreadable, tie = correspondence only: " + ", ".join(unreadable) + " (kept as in the Gen file on disk)")
+    return [("ScrapliModel/Gen/LogConsts.lean", body)]
+
+
+def _chan_ast():
     rs, cr_s = _read_site(SYNC, "Channel")
     ra, cr_a = _read_site(ASYNC, "AsyncChannel")
     if (rs, cr_s) != (ra, cr_a):
@@ -361,28 +594,77 @@ def generate():
             chan_dflt = n.value.value
     if not isinstance(chan_dflt, str):
         raise TranslateError(f"{BASE}: default channel log destination not found")
-    for t in (rs, w_tmpl, w_red, prefix, heads[0]):
+    for t in (rs, w_tmpl, w_red):
         if not isinstance(t, str):
             raise TranslateError(f"log template is not a str: {t!r}")
+    return {"read": rs, "cr": cr_s, "write": w_tmpl, "redacted": w_red, "default": chan_dflt}
 
-    body = HEADER.format(src=f"{LOGGING}, {BASE}, {SYNC}, {ASYNC}")
-    body += "import ScrapliModel.LogTypes\nnamespace Scrapli.Gen.Log\nopen Scrapli.Log\n"
-    body += f"/-- ScrapliFormatter.__init__: log_format (caller_info=False), parsed by string.Formatter -/\ndef fmtPlain : List Piece := {lpieces(plain)}\n"
-    body += f"/-- ScrapliFormatter.__init__: log_format (caller_info=True) -/\ndef fmtCaller : List Piece := {lpieces(caller)}\n"
-    body += f"def firstMessageId : Nat := {int(first_id)}\n"
-    body += f"def targetLimit : Nat := {tr['target'][1]}\ndef targetKeep : Nat := {tr['target'][2]}\n"
-    body += f"def callerLimit : Nat := {tr['module'][1]}\ndef callerKeep : Nat := {tr['module'][2]}\n"
-    body += f"def ellipsis : Str := {lstr(tr['target'][3])}\n"
-    for k, n in (("message_id", "hdrMessageId"), ("asctime", "hdrAsctime"), ("levelname", "hdrLevelname"), ("target", "hdrTarget"),
-                 ("module", "hdrModule"), ("funcName", "hdrFuncName"), ("lineno", "hdrLineno"), ("message", "hdrMessage")):
-        body += f"def {n} : Str := {lstr(hdr[k])}\n"
-    body += f"/-- ScrapliFileHandler._read_msg_prefix -/\ndef readPrefix : Str := {lstr(prefix)}\n"
-    body += f"/-- literal head of the coalesced message f\"...{{self._record_msg_buf!r}}\" -/\ndef bufferedHead : Str := {lstr(heads[0])}\n"
-    body += f"/-- enable_basic_logging: (mode, file mode) -/\ndef logModes : List (Str × Str) := [{', '.join(f'({lstr(a)}, {lstr(b)})' for a, b in mode_tbl)}]\n"
-    body += f"def defaultLogFile : Str := {lstr(dflt)}\n"
-    body += f"/-- Channel.read / AsyncChannel.read: self.logger.debug(<template>, buf) -/\ndef chanReadTemplate : Str := {lstr(rs)}\n"
-    body += f"/-- BaseChannel.write -/\ndef chanWriteTemplate : Str := {lstr(w_tmpl)}\ndef chanWriteRedacted : Str := {lstr(w_red)}\n"
-    body += f"/-- the byte `read()` removes from every chunk: buf.replace(b\"\\r\", b\"\") -/\ndef strippedByte : UInt8 := {cr_s}\n"
-    body += f"def defaultChannelLog : Str := {lstr(chan_dflt)}\n"
-    body += "end Scrapli.Gen.Log\n"
-    return [("ScrapliModel/Gen/LogConsts.lean", body)]
+
+def _chan_live():
+    """MEASURED on live Channel and AsyncChannel objects (a transport that serves all 256 byte values once, a logger that
+    records its calls): the template and argument of the one log call of read(), the byte missing from the argument, the
+    two templates of write(), the file channel.open() creates for channel_log=True in an empty directory"""
+    import asyncio as _aio, os as _os, tempfile as _tf, shutil as _sh
+    _live()
+    from scrapli.channel import AsyncChannel, Channel
+    from scrapli.channel.base_channel import BaseChannelArgs
+    served = bytes(range(256))
+
+    class Lg:
+        def __init__(self):
+            self.calls = []
+
+        def debug(self, *a, **k):
+            self.calls.append(a)
+        info = warning = error = critical = debug
+
+    from scrapli.transport.base.base_transport import BaseTransportArgs
+
+    class T:
+        _base_transport_args = BaseTransportArgs(transport_options={}, host="probe", port=22, timeout_socket=0, timeout_transport=0)
+
+        def read(self):
+            return served
+
+        def write(self, *a, **k):
+            pass
+
+    class AT(T):
+        async def read(self):
+            return served
+    out = []
+    d = _tf.mkdtemp(prefix="verif-c20-gen-")
+    cwd = _os.getcwd()
+    try:
+        _os.chdir(d)
+        for cls, tr_ in ((Channel, T()), (AsyncChannel, AT())):
+            ch = cls(transport=tr_, base_channel_args=BaseChannelArgs(channel_log=True))
+            ch.logger = Lg()
+            ch.open()
+            made = sorted(_os.listdir(d))
+            n0 = len(ch.logger.calls)
+            buf = _aio.run(ch.read()) if cls is AsyncChannel else ch.read()
+            rcalls = ch.logger.calls[n0:]
+            ch.close()
+            if len(rcalls) != 1 or len(rcalls[0]) != 2 or rcalls[0][1] != buf:
+                raise TranslateError(f"{cls.__name__}.read: expected one logger call (template, buf), got {rcalls!r}"[:200])
+            gone = [b for b in range(256) if b not in buf]
+            if len(gone) != 1 or buf != served.replace(bytes(gone), b""):
+                raise TranslateError(f"{cls.__name__}.read does not remove exactly one byte value: {gone!r}")
+            with open(_os.path.join(d, made[0]), "rb") as fh:
+                if len(made) != 1 or fh.read() != buf:
+                    raise TranslateError(f"{cls.__name__}: channel log is not the bytes read() returned")
+            n0 = len(ch.logger.calls)
+            ch.write("probe")
+            ch.write("secret", redacted=True)
+            w = ch.logger.calls[n0:]
+            if len(w) != 2 or len(w[0]) != 2 or len(w[1]) != 1 or w[0][1] != "probe":
+                raise TranslateError(f"{cls.__name__}.write: unexpected logger calls {w!r}"[:200])
+            out.append({"read": rcalls[0][0], "cr": gone[0], "write": w[0][0], "redacted": w[1][0], "default": made[0]})
+            _os.remove(_os.path.join(d, made[0]))
+        if out[0] != out[1]:
+            raise TranslateError(f"sync and async channels differ: {out!r}")
+        return out[0]
+    finally:
+        _os.chdir(cwd)
+        _sh.rmtree(d, ignore_errors=True)
